@@ -914,16 +914,25 @@ def probe_case(ctx, i, rng):
     vals = Values(rng, cell, gdim, False)
     same = mcanon(ma) == mcanon(mb)
     for append in (True, False):
-        # (no integrand occurs under both metadata on one subdomain: UFL orders equal integrands by comparing their metadata)
+        # (the integrand f occurs under both metadata on subdomain 1: UFL then orders the two equal integrands by comparing
+        # their canonical metadata, which must work for any two metadata)
         F = (f * ufl.dx(1, domain=mesh, metadata=ma) + g * ufl.dx(1, domain=mesh, metadata=mb) + (2 * f) * ufl.dx((1, 2), domain=mesh, metadata=mb)
-             + (3 * g) * ufl.dx(domain=mesh, metadata=ma))
+             + (3 * g) * ufl.dx(domain=mesh, metadata=ma) + f * ufl.dx(1, domain=mesh, metadata=mb))
         try:
             with warnings.catch_warnings():
                 warnings.simplefilter("ignore")
                 G = group_form_integrals(F, F.ufl_domains(), do_append_everywhere_integrals=append)
         except Exception as ex:
             ctx.count("probe_rejected")
-            ctx.covered("probe_rejected_with", name + ": " + type(ex).__name__)
+            ctx.covered("probe_rejected_with", name + ": " + type(ex).__name__ + ": " + str(ex)[:60])
+            if isinstance(ex, TypeError | IndexError | KeyError | AttributeError):
+                import traceback
+
+                tb = traceback.extract_tb(ex.__traceback__)
+                site = next((f"{os.path.basename(fr.filename)}:{fr.name}" for fr in reversed(tb) if "/ufl/" in fr.filename), "?")
+                ctx.violation(f"C15/group_form_integrals/raises/{type(ex).__name__}/{site}",
+                              f"group_form_integrals raises {type(ex).__name__}: {str(ex)[:120]} (in {site}) for one integrand under the metadata {ma!r} and {mb!r} (probe {name})",
+                              {"metadata": [repr(ma), repr(mb)], "probe": name})
             continue
         ctx.count("probe_pairs")
         v, _ = judge_group_event(ctx, vals, list(F.integrals()), append, list(G.integrals()), label="group_form_integrals")
